@@ -28,6 +28,9 @@ def write_if_changed(path, content):
 
 
 def main():
+    global H
+    outdir = sys.argv[1] if len(sys.argv) > 1 else H
+    stub = os.path.join(H, "stubs", "bls")
     gm = open(os.path.join(REPO, "go.mod")).read()
     m = re.search(r"^replace\s*\((.*?)^\)", gm, re.S | re.M)
     repl = m.group(1) if m else ""
@@ -44,18 +47,18 @@ def main():
         "",
         "replace github.com/polynetwork/poly => " + REPO,
         "",
-        "replace github.com/harmony-one/bls => ./stubs/bls",
+        "replace github.com/harmony-one/bls => " + stub,
         "",
         "replace (" + repl + ")",
         "",
     ]
     for s in singles:
         out.append("replace " + s.strip())
-    write_if_changed(os.path.join(H, "go.mod"), "\n".join(out) + "\n")
+    write_if_changed(os.path.join(outdir, "go.mod"), "\n".join(out) + "\n")
     gs = open(os.path.join(REPO, "go.sum")).read()
     if not gs.endswith("\n"):
         gs += "\n"
-    write_if_changed(os.path.join(H, "go.sum"), gs + EXTRA_SUM)
+    write_if_changed(os.path.join(outdir, "go.sum"), gs + EXTRA_SUM)
 
 
 if __name__ == "__main__":
